@@ -177,6 +177,15 @@ func produce(emit func(Case)) {
 		emit(Case{p: p, t: t, src: src, reps: reps})
 	}
 	allReps := append([]Rep{repSimple, repGen, repUser}, repTyped...)
+	if sel := os.Getenv("VERIF_REPS"); sel != "" { // development aid: restrict the representations
+		var rs []Rep
+		for _, r := range allReps {
+			if strings.Contains(","+sel+",", ","+r.String()+",") {
+				rs = append(rs, r)
+			}
+		}
+		allReps = rs
+	}
 	// 1. corpus
 	if *corpus != "" {
 		if data, err := os.ReadFile(*corpus); err == nil {
